@@ -17,7 +17,7 @@ class KvError(ValueError):
     pass
 
 
-WSP = " \t\r\n\v"
+WSP = " \t\r\n\v\f"      # TOR_ISSPACE
 
 
 def unescape(body):
